@@ -1365,7 +1365,11 @@ func checkFuncResults(pkg *Package, rets []*internal.Elem, results *types.Tuple,
 func getTypes(rets []*internal.Elem) string {
 	typs := make([]string, len(rets))
 	for i, ret := range rets {
-		typs[i] = ret.Type.String()
+		if ret.Type == nil { // operand without a value
+			typs[i] = "no value"
+		} else {
+			typs[i] = ret.Type.String()
+		}
 	}
 	return strings.Join(typs, ", ")
 }
